@@ -373,7 +373,12 @@ def main(argv):
         known_findings_reproduced=dict(reproduced), notes=rep.notes, lean_build_s=info['build_s'],
     )
     if rep.exhaustive is not None:
-        cov['exhaustive'] = rep.exhaustive
+        if isinstance(rep.exhaustive, bool):
+            cov['exhaustive'] = rep.exhaustive
+        else:
+            # a description of the sub-domain that was swept completely; the run as a whole is sampled
+            cov['exhaustive'] = False
+            cov['exhaustive_sweep'] = rep.exhaustive
     cov.update(rep.extra)
     ev = dict(property_id=pid, tier=a.tier, seed=seed, level='proof', coverage=cov,
               assumptions=list(getattr(mod, 'ASSUMPTIONS', [])), wall_s=wall, violations=nviol)
